@@ -260,7 +260,21 @@ def aligned_pairs(lk, rk, rng):
                     if a and b:
                         out.append((a, b))
     rng.shuffle(out)
-    return out
+    # divisors just above / below a power of ten or half of one (normalised divisors with an extreme low word) against
+    # dividends that are an end of a primitive integer range times a power of ten: always tried first, unshuffled
+    first = []
+    for k in (20, 25, 30, 31, 32, 33, 36, 37):
+        for dv in (10 ** k + 1, 5 * 10 ** k + 1, 10 ** k - 1):
+            for sdv in (17, 18):
+                for c in (2 ** 63, 2 ** 64, 2 ** 63 - 1):
+                    for n in (0, 1, 2, 18):
+                        if c * 10 ** n > mx:
+                            continue
+                        for sg, sf in ((1, 1), (-1, 1), (1, -1)):
+                            a, b = enc(lk, sg * c * 10 ** n, n), enc(rk, sf * dv, sdv)
+                            if a and b:
+                                first.append((a, b))
+    return first[:1500] + out
 
 
 def operands(kind, rng, budget):
@@ -442,11 +456,21 @@ def search(pid, r, d, key, tier, seed, profile_pair=None, budget=None):
 
 
 def _search(pid, r, d, key, tier, seed, profile_pair=None, budget=None, combos=None):
-    """returns a dict describing the failing input, or None"""
-    rng = random.Random(seed or 12345)
+    """returns a dict describing the failing input, or None.  The sampled part of the search is repeated with
+    further random streams while the budget lasts (which sample exposes a fault must not hinge on one stream)."""
     deadline = time.time() + (budget or (300 if tier == 'thorough' else 25))
     if combos is None:
         combos = ops_for(key.get('fn'))
+    for attempt in range(4):
+        if attempt and time.time() > deadline:
+            break
+        w = _search_once(random.Random((seed or 12345) + 7919 * attempt), deadline, combos, profile_pair, attempt)
+        if w:
+            return w
+    return None
+
+
+def _search_once(rng, deadline, combos, profile_pair, attempt=0):
     for op, lks, rks in combos:
         for lk in lks:
             for rk in (rks or (None,)):
@@ -462,8 +486,10 @@ def _search(pid, r, d, key, tier, seed, profile_pair=None, budget=None, combos=N
                 # depend on it is compared under the default and under one other mode)
                 modes = oracle.MODES if (op in ROUNDING_OPS or (op[-3:] in ('_rr', '_rv', '_vr') and op[:-3] in ROUNDING_OPS)) else ['RoundHalfEven', rng.choice([m_ for m_ in oracle.MODES if m_ != 'RoundHalfEven'])]
                 pairs = []
+                pairs_all = []
                 if rk and (lk == 'd' or lk in oracle.INT_RANGES) and (rk == 'd' or rk in oracle.INT_RANGES) and 'd' in (lk, rk):
-                    pairs = aligned_pairs(lk, rk, rng)[:3000]
+                    pairs_all = aligned_pairs(lk, rk, rng)
+                    pairs = pairs_all[3000 * attempt:3000 * (attempt + 1)]     # another slice in every pass
                 ns = [0]
                 if op in ('div_rounded', 'mul_rounded'):
                     ns = [0, 1, 2, 5, 17, 18, 19, 32, 255]
